@@ -60,6 +60,10 @@ def stepD (d : DSt) : List String → DSt × String
     -- a parent that waits for the child it scheduled: with >= 2 workers besides the caller an idle worker's pop of the
     -- queued child is enabled (schedule_pop_enabled), so the child runs while the parent is still busy
     (d, if d.lastInit ≥ 3 then "done=" ++ n ++ " child-not-picked-up=0" else "skip")
+  | ["leave", _n] =>
+    -- the process exits with scheduled closures pending: the tasking system's static destruction neither crashes nor
+    -- runs a closure twice (whether a pending closure still runs at exit is the backend's business)
+    (d, "exit=0 ran-twice=0")
   | ["wait_all"] =>
     waitAll (SCfg.reference d.workers) d
   | ["async", _kind, v] =>
